@@ -16,7 +16,7 @@ RULE = ('Hypothesis: byte streams built three ways - pure random bytes; 1..4 val
         'request inside a checksum-valid frame found ANYWHERE in the stream (independent finder) could have put there; (3) a '
         'probe write + read on a fresh connection to the same server object is answered exactly as the model predicts; (4) the '
         'handler terminates. Non-trivial: stream holds a validly framed PDU that is not well-formed, or >=16 random bytes; '
-        'distinct by SHA-1.')
+        'distinct by SHA-1. Streams also contain valid requests of every kind (Force Listen Only Mode included), writes to existing cells with a short or over-long data field, kilobytes of noise; sweep of undefined diagnostic sub-functions that share a byte with a defined one, each followed by the probe.')
 ASSUMPTIONS = ['the frame finder over-approximates what a receiver may accept (any offset), so (2) never blames a justified write',
                'Twisted: exceptions from dataReceived/datagramReceived are caught by the reactor (connection closed / datagram dropped)',
                'streams that contain a checksum-valid Force Listen Only Mode request are not probed on Twisted front-ends (spec-mandated silence)']
